@@ -30,7 +30,7 @@ PROP = dict(
     assumptions=[
         "declarations are top-level functions, enums and interfaces; struct definitions, member functions and two-level "
         "qualified patterns (the parser accepts one prefix only) are not generated; local binders never reuse a type name",
-        "the for-loop variable is scoped to the loop (D39 repaired); until that fix lands the check reports the leak",
+        "the for-loop variable is scoped to the loop (D39, fixed by 2429730)",
     ],
     design_ref="DESIGN.md §6 C21",
     level_text="Theorems over all worlds and statement lists about a model of add_declaration/add_other_pred, "
